@@ -29,6 +29,9 @@ THEOREMS = [
     "C30_woken_executes",
     "C30_run_ids_unique",
     "C30_schedule_refines",
+    "C30_nested_start_refines",
+    "C30_nested_bound",
+    "C30_nested_start_counted",
 ]
 LEAN_TARGETS = ["WfProps.C30"]
 EXPLANATION = (
@@ -40,9 +43,12 @@ EXPLANATION = (
     "= N (no leak on any exit path); None = no semaphore; the registry entry only disappears when it equals a fresh semaphore; actions of "
     "different instances commute and never change each other's state or enabledness; FIFO wake order, no barging, no lost wake-up; progress: a "
     "helpful action is always enabled while a run waits (N>=1) and the measure 2*(pending up to r)+(woken) bounds the helpful actions that can "
-    "happen before r is woken; run ids unique; the FIFO ready-queue layer used by the driver only performs LTS actions. Tie: (gen) the source of "
+    "happen before r is woken; run ids unique; the FIFO ready-queue layer used by the driver only performs LTS actions; runs started from inside "
+    "a step of a run that holds its slot (nested starts, same or other instance) add no reachable state, keep the bound, and with all N slots "
+    "taken such a run queues as a pending waiter. Tie: (gen) the source of "
     "_maybe_acquire_max_concurrent_runs / run_with_concurrency_limit re-extracted into C30_source_shape; (K1) real Workflow instances on the real "
-    "BasicRuntime under the virtual-time loop with gate-controlled steps, scheduler-chosen starts/finishes/failures/time-outs/hard and soft "
+    "BasicRuntime under the virtual-time loop with gate-controlled steps, scheduler-chosen starts (from top-level code and NESTED: the step of "
+    "an executing run, or a task it spawned, calls run() of its own or another instance, fire-and-forget or awaited)/finishes/failures/time-outs/hard and soft "
     "cancels/snipes/instance replacement, gc.collect() after every op: semaphore value, waiter queue, executing runs and outcomes compared with "
     "the model driver after every op; (K2) asyncio.Semaphore itself stepped one ready handle at a time against the model's micro actions incl. "
     "the FIFO order of the ready queue. Search: monitors on step entry/exit events and quiescent snapshots (bound, step outliving its run, "
@@ -64,6 +70,11 @@ ASSUMPTIONS = [
     "is not mutated after construction",
     "CPython 3.12 asyncio.Semaphore / Task.cancel semantics are transcribed by hand and validated by K2 on the interpreter that runs the check; "
     "real threads, other event loops and other runtimes (DBOS) are out of scope",
+    "nested starts: the model lets any run inside its limit start runs of any instance and treats the call exactly like a top-level start (the code "
+    "passes nothing about the caller to the limit: C30_source_shape pins that body); the harness makes the call from the step coroutine or from a "
+    "task created by it, not from threads or executor callbacks. A step that AWAITS a run of an instance whose slots are all held by runs "
+    "that themselves wait (e.g. its own instance at limit 1) deadlocks by design; the generator avoids exactly these (decided by simulating the "
+    "specified N-slot FIFO semantics on the harness's own bookkeeping), so 'every started run eventually executes' is checked for all others",
     "K1 compares states at quiescent points only; the order of semaphore events inside one loop run is the model's FIFO ready queue, and a run "
     "function's exit is assumed to come after everything that was ready when its gate opened",
 ]
@@ -100,12 +111,26 @@ class Chooser:
             if live.nruns[i] < 9:
                 opts += [["start", i]] * (4 if len(alive) < 3 else 2)
             for r in ex:
+                if (i, r) in live.awaiting:
+                    # its step is blocked on a nested run: it can only be cancelled from outside
+                    opts.append(["hard", i, r])
+                    if (i, r) not in live.soft:
+                        opts.append(["soft", i, r])
+                    continue
                 opts += [["open", i, r, "ok"]] * 2 + [["open", i, r, "fail"]]
                 opts.append(["hard", i, r])
                 if (i, r) not in live.soft:
                     opts.append(["soft", i, r])
                 if waiting:
                     opts += [["snipe", i, r]] * 2
+                # nested starts: this step calls run() of its own instance / of another one
+                for j, cj in live.cfg.items():
+                    if j in live.dropped or live.nruns[j] >= 9:
+                        continue
+                    how = rng.choice(["ff", "ff", "task", "await", "await"])
+                    if how == "await" and ((self.indep and j != i) or not await_safe(live, (i, r), j)):
+                        how = "ff"
+                    opts += [["nstart", i, r, j, how]] * (2 if j == i else 1)
             for r in waiting:
                 opts.append(["hard", i, r])
                 if (i, r) not in live.soft:
@@ -146,11 +171,20 @@ class Chooser:
             subs: list = []
             used: set = set()
             extra_runs: dict[int, int] = {}
+            has_nested = has_other = has_await = False
             for _ in range(k * 3):
                 if len(subs) >= k:
                     break
                 o = rng.choice(opts)
                 if o[0] == "snipe":
+                    continue
+                # a nested start shares its quiescent point only with other starts (the call happens a loop
+                # iteration later than the op; next to finishes/cancels the order of events would be a guess),
+                # and at most one of them is awaited (each was found deadlock-free on its own only)
+                if o[0] == "nstart":
+                    if has_other or (o[4] == "await" and has_await) or (self.indep and o[1] != o[3]):
+                        continue
+                elif o[0] != "start" and has_nested:
                     continue
                 key = (o[1], o[2]) if o[0] != "start" else None
                 if key is not None and key in used:
@@ -158,9 +192,15 @@ class Chooser:
                 if key is not None:
                     used.add(key)
                 subs.append(o)
+                if o[0] == "nstart":
+                    has_nested = True
+                    has_await = has_await or o[4] == "await"
+                elif o[0] != "start":
+                    has_other = True
                 if o[0] == "start":
                     extra_runs[o[1]] = extra_runs.get(o[1], 0) + 1
-                    if rng.random() < 0.25:
+                    if not has_nested and rng.random() < 0.25:
+                        has_other = True
                         # cancel the new run before its task was stepped at all
                         subs.append(["hard", o[1], live.nruns[o[1]] + extra_runs[o[1]]])
             return ["multi", subs] if len(subs) >= 2 else (subs[0] if subs else ["start", next(iter(live.cfg))])
@@ -175,10 +215,53 @@ class Chooser:
             if i in live.dropped:
                 continue
             alive = live.live_runs(i)
-            ex = [r for r in live.executing[i] if r in alive]
+            ex = [r for r in live.executing[i] if r in alive and (i, r) not in live.awaiting]
             if ex:
                 return ["open", i, ex[0], "ok"]
         return None
+
+
+def await_safe(live: Any, parent: tuple, j: int) -> bool:
+    """May the step of `parent` start a run of instance `j` and WAIT for it?  A step that waits for a run of its
+    own instance at limit 1 deadlocks by design (the child needs the slot its parent keeps) -- that is the
+    documented meaning of the limit, not a violation, so the generator does not go there.  Decided on the
+    harness's own picture of the system under the *specified* semantics (N slots per instance, FIFO): add the
+    awaited child, then let every run end whose step waits for nothing (or for a run that ended), handing freed
+    slots to the queue; safe iff everything ends."""
+    lim_j = live.cfg[j]["lim"]
+    if lim_j == 0:
+        return False
+    ex: dict[int, list] = {}
+    waiting: dict[int, list] = {}
+    lims: dict[int, Any] = {}
+    for i, c in live.cfg.items():
+        if i in live.dropped:
+            continue
+        alive = live.live_runs(i)
+        ex[i] = [r for r in live.executing[i] if r in alive]
+        waiting[i] = sorted(r for r in alive if r not in ex[i])
+        lims[i] = c["lim"]
+    aw = {k: v for k, v in live.awaiting.items()}
+    aw[parent] = (j, "new")
+    waiting[j].append("new")
+
+    def admit(i: int) -> None:
+        while waiting[i] and (lims[i] is None or len(ex[i]) < lims[i]):
+            ex[i].append(waiting[i].pop(0))
+
+    for i in ex:
+        admit(i)
+    progress = True
+    while progress:
+        progress = False
+        for i in ex:
+            for r in list(ex[i]):
+                a = aw.get((i, r))
+                if a is None or a[0] not in ex or (a[1] not in ex[a[0]] and a[1] not in waiting[a[0]]):
+                    ex[i].remove(r)
+                    admit(i)
+                    progress = True
+    return all(not ex[i] for i in ex) and all(not waiting[i] or lims[i] == 0 for i in waiting)
 
 
 def gen_scenario_head(rng: random.Random, indep: bool) -> tuple[dict, int]:
@@ -220,6 +303,17 @@ def monitor(res: dict, drained: bool) -> list[tuple[str, str, int]]:
                 return k
         return len(res["snaps"]) - 1
 
+    nested = {tuple(int(x) for x in k.split(".")): v for k, v in res.get("nested", {}).items()}
+
+    def origin(i: int, rs: list) -> tuple[str, str]:
+        """classifying fact for the bound: were all runs started from top-level code, or some from inside a step?"""
+        ns = [r for r in rs if (i, r) in nested]
+        if not ns:
+            return "", ""
+        same = [r for r in ns if nested[(i, r)][0] == i]
+        txt = "; ".join(f"run {r} was started from inside the step of run {nested[(i, r)][0]}.{nested[(i, r)][1]} ({nested[(i, r)][2]})" for r in ns)
+        return ("[nested_start_same_instance]" if same else "[nested_start_other_instance]"), " -- " + txt
+
     inside: dict[int, list] = {}
     taskdone: set = set()
     last_enter: dict[int, int] = {}
@@ -237,7 +331,8 @@ def monitor(res: dict, drained: bool) -> list[tuple[str, str, int]]:
                     f"run task has already ended (outcomes {[res['outcome'].get(f'{i}.{q}') for q in zombies]})", snap_of(n))
             cur.append(r)
             if lim is not None and len([q for q in cur if (i, q) not in taskdone]) > lim:
-                add("C30/bound_exceeded", f"instance {i}: {len(cur)} runs {cur} execute steps at once, limit {lim}", snap_of(n))
+                tag, txt = origin(i, cur)
+                add("C30/bound_exceeded" + tag, f"instance {i}: {len(cur)} runs {cur} execute steps at once, limit {lim}{txt}", snap_of(n))
             if i in last_enter and r < last_enter[i]:
                 add("C30/fifo_violated", f"instance {i}: run {r} (started earlier) enters its step after run {last_enter[i]}", snap_of(n))
             last_enter[i] = max(last_enter.get(i, 0), r)
@@ -265,7 +360,8 @@ def monitor(res: dict, drained: bool) -> list[tuple[str, str, int]]:
                 if o["sem"] + len(ex_live) != lim:
                     add("C30/conservation", f"instance {i}: semaphore value {o['sem']} + {len(ex_live)} executing runs != limit {lim}", k)
             if len(ex_live) > lim:
-                add("C30/bound_exceeded", f"instance {i}: runs {ex_live} execute steps at a quiescent point, limit {lim}", k)
+                tag, txt = origin(i, ex_live)
+                add("C30/bound_exceeded" + tag, f"instance {i}: runs {ex_live} execute steps at a quiescent point, limit {lim}{txt}", k)
             waiting = [r for r in o["live"] if r not in ex_live]
             if waiting and len(ex_live) < lim:
                 add("C30/waits_with_free_permit", f"instance {i}: runs {waiting} wait although only {len(ex_live)} of {lim} permits are in use", k)
@@ -290,17 +386,34 @@ def monitor(res: dict, drained: bool) -> list[tuple[str, str, int]]:
     return out
 
 
+def proj_op(op: list, i: int) -> Any:
+    """what instance i sees of a (non-multi) op when it runs alone; None = nothing.  A run of i started from a
+    step of ANOTHER instance is, for i, just a start (that is the independence claim); the other instance sees
+    nothing of it (fire-and-forget / task modes only: an awaiting step would be held up by the other instance)."""
+    if op[0] == "advance":
+        return None
+    if op[0] == "nstart":
+        if op[1] == i and op[3] == i:
+            return op
+        if op[3] == i and op[4] != "await":
+            return ["start", i]
+        if op[1] == i and op[4] == "await":
+            return op  # (not generated for independence scenarios; keeps the comparison honest if it ever is)
+        return None
+    return op if op[1] == i else None
+
+
 def project(ops: list, i: int) -> list:
     res = []
     for op in ops:
         if op[0] == "multi":
-            subs = [s for s in op[1] if s[1] == i]
+            subs = [q for q in (proj_op(x, i) for x in op[1]) if q is not None]
             if subs:
                 res.append(["multi", subs])
-        elif op[0] == "advance":
-            continue
-        elif op[1] == i:
-            res.append(op)
+        else:
+            q = proj_op(op, i)
+            if q is not None:
+                res.append(q)
     return res
 
 
@@ -310,7 +423,7 @@ def inst_states(res: dict, i: int, only_own: bool) -> list[str]:
     pat = re.compile(rf"(?:^| ; )(I{i} [^;]*?)(?= ; |$)")
     for s in res["snaps"]:
         op = s["op"]
-        touches = (op[0] == "multi" and any(x[1] == i for x in op[1])) or (op[0] not in ("multi", "advance") and op[1] == i)
+        touches = any(proj_op(x, i) is not None for x in (op[1] if op[0] == "multi" else [op]))
         if only_own and not touches:
             continue
         m = pat.search(s["state"])
@@ -327,6 +440,8 @@ def _syntax_ok(line: str) -> bool:
     nat = lambda s: s.isdigit() and s.isascii()  # noqa: E731
     if t[0] == "mk":
         return len(t) == 3 and nat(t[1]) and (t[2] == "-" or nat(t[2]))
+    if t[0] == "nstart":
+        return len(t) == 5 and all(nat(x) for x in t[1:])
     if t[0] in ("start", "begin", "cancel", "deliver"):
         return len(t) == 3 and nat(t[1]) and nat(t[2])
     if t[0] == "finish":
@@ -347,6 +462,13 @@ MALFORMED = [
     ("show", "I1 lim=1 sem=- W=[] C=[] H=[] F=[1f]"), ("START 1 2", "bad-op"), ("start 1 2 ", "bad-op"), ("mk 2 -", "ok"),
     ("start 2 1", "ok"), ("start 2 2", "ok"), ("settle", "I1 lim=1 sem=- W=[] C=[] H=[] F=[1f] ; I2 lim=- sem=- W=[] C=[] H=[1,2] F=[]"),
     ("gc 2", "disabled"), ("deliver 2 1", "disabled"),
+    # nested starts: the caller must be inside its limit; the new run is an ordinary task of its instance
+    ("reset", "ok"), ("mk 1 1", "ok"), ("mk 2 1", "ok"), ("start 1 1", "ok"), ("nstart 1 1 1 2", "disabled"), ("nstart 1 1 1", "bad-op"),
+    ("nstart 1 1 1 x", "bad-op"), ("nstart 1 1 1 2 3", "bad-op"), ("drain", "ok"), ("nstart 1 1 1 1", "disabled"), ("nstart 1 2 1 2", "disabled"),
+    ("nstart 3 1 1 2", "disabled"), ("nstart 1 1 3 1", "disabled"), ("nstart 1 1 1 2", "ok"), ("nstart 1 1 2 1", "ok"), ("nstart 1 2 1 3", "disabled"),
+    ("settle", "I1 lim=1 sem=0 W=[2p] C=[] H=[1] F=[] ; I2 lim=1 sem=0 W=[] C=[] H=[1] F=[]"), ("nstart 2 1 1 3", "ok"),
+    ("finish 1 1 c", "ok"), ("nstart 1 1 1 4", "disabled"),
+    ("settle", "I1 lim=1 sem=0 W=[3p] C=[] H=[2] F=[1c] ; I2 lim=1 sem=0 W=[] C=[] H=[1] F=[]"),
 ]
 
 
@@ -377,7 +499,9 @@ def _run(env: Env) -> Outcome:
 
     out = Outcome()
     out.rule = ("K1: 1-3 workflow instances (limits 1-4, None, rarely 0; shared or distinct class; optional 10 s timeout; own or default runtime) "
-                "driven by online-chosen ops start/open ok|fail/hard cancel/soft cancel/snipe/advance/drop+re-create/multi, then a drain phase; "
+                "driven by online-chosen ops start/NESTED start (a step of a running run calls run() of its own or another instance: fire-and-forget, "
+                "from a task it spawned, or awaited where that cannot deadlock by design)/open ok|fail/hard cancel/soft cancel/snipe/advance/"
+                "drop+re-create/multi, then a drain phase; "
                 "K2: asyncio.Semaphore(0..4) with random start/tick/go/cancel; non-trivial = some run had to wait; distinct by concrete op list")
     rng = random.Random(env.rng.randrange(1 << 30))
     cases: list[tuple[str, dict, Any]] = []  # (kind, scenario, chooser-args)
@@ -404,6 +528,16 @@ def _run(env: Env) -> Outcome:
         out.count(f"scenario:{kind}")
         for s in res["snaps"]:
             out.count("op:" + s["op"][0])
+            for x in (s["op"][1] if s["op"][0] == "multi" else [s["op"]]):
+                if x[0] == "nstart":
+                    out.count(f"nested:{x[4]}:{'same' if x[1] == x[3] else 'other'}_instance")
+            if s.get("awaiting"):
+                out.count("snapshot:some_step_awaits_nested_run")
+        for key, (pi, _pr, _how) in res.get("nested", {}).items():
+            j, c = (int(x) for x in key.split("."))
+            lim = res["cfg"][j]["lim"] if j in res["cfg"] else None
+            if pi == j and lim is not None and any(s["obs"].get(j, {}).get("waiters") and c in s["obs"][j]["waiters"] for s in res["snaps"]):
+                out.count("nested:child_of_same_instance_had_to_wait")
             if s.get("sniped") and any(v is not None for v in s["sniped"].values()):
                 out.count("snipe:hit")
         for o in res["outcome"].values():
@@ -447,7 +581,10 @@ def _run(env: Env) -> Outcome:
     # the most direct statement of the property first (the runner reports the first unlisted one)
     prio = ["C30/bound_exceeded", "C30/step_outlives_run", "C30/instances_interfere", "C30/started_run_never_executed", "C30/fifo_violated",
             "C30/waits_with_free_permit", "C30/permit_leak", "C30/unlimited_run_waits", "C30/conservation", "C30/registry_lost_live_semaphore"]
-    out.violations.sort(key=lambda v: (prio.index(v.signature) if v.signature in prio else len(prio),
+    base = lambda v: v.signature.split("[")[0]  # noqa: E731
+    # (a violation that shows without nested starts is reported before one whose runs were started from inside steps)
+    out.violations.sort(key=lambda v: (prio.index(base(v)) if base(v) in prio else len(prio),
+                                       1 if "[" in v.signature else 0,
                                        1 if any(o[0] == "mk" and o[2] == 0 for o in v.replay.get("ops", [])) else 0,
                                        len(json.dumps(v.replay))))
 
@@ -494,7 +631,7 @@ def _run(env: Env) -> Outcome:
     # malformed / disabled ops
     bad_ops = [m[0] for m in MALFORMED]
     bad_exp = [m[1] for m in MALFORMED]
-    toks = ["mk", "start", "finish", "gc", "gcsync", "tick", "1", "2", "x", "-", "c", "", "settle", "99999999999999999999", "-1", "１"]
+    toks = ["mk", "start", "nstart", "finish", "gc", "gcsync", "tick", "1", "2", "x", "-", "c", "", "settle", "99999999999999999999", "-1", "１"]
     for _ in range(env.budget(60, 600)):
         line = " ".join(rng.choice(toks) for _ in range(rng.randint(1, 5)))
         if not _syntax_ok(line):
